@@ -34,3 +34,17 @@ ITEMS += budget_types() + error_types() + [
                           _ => false } })''')],
          canaries=['C16:a_scanner_error_is_located_at_the_scanners_mark_with_a_one_based_column']),
 ]
+# ---- the public accessors of Span / Location / Locations (C16 observe_at: what a user reads off a reported location) ----
+ITEMS += [
+    dict(src='src/location.rs', path='impl Span/fn offset', props=['C16'], ensures=[('value', 'r == self.offset as u64')], canaries=['value']),
+    dict(src='src/location.rs', path='impl Span/fn len', props=['C16'], ensures=[('value', 'r == self.len as u64')], canaries=['value']),
+    dict(src='src/location.rs', path='impl Span/fn is_empty', props=['C16'], ensures=[('value', 'r == (self.len == 0)')]),
+    dict(src='src/location.rs', path='impl Location/fn line', props=['C16'], ensures=[('value', 'r == self.line as u64')], canaries=['value']),
+    dict(src='src/location.rs', path='impl Location/fn column', props=['C16'], ensures=[('value', 'r == self.column as u64')], canaries=['value']),
+    dict(src='src/location.rs', path='impl Location/fn span', props=['C16'], ensures=[('value', 'r == self.span')]),
+    dict(src='src/location.rs', path='impl Locations/fn primary_location', props=['C16'],
+         ensures=[('C16:the_primary_location_of_a_pair_is_the_use_site_if_known_else_the_definition_site', '''r == (
+                if self.reference_location != Location::UNKNOWN { Some(self.reference_location) }
+                else if self.defined_location != Location::UNKNOWN { Some(self.defined_location) } else { None::<Location> })''')],
+         canaries=['C16:the_primary_location_of_a_pair_is_the_use_site_if_known_else_the_definition_site']),
+]
